@@ -79,7 +79,7 @@ def sat_model(e, cond):
     return None
 
 def mbool(m, b):
-    if isinstance(b, bool): return b
+    if isinstance(b, (bool, int)): return bool(b)
     return z3.is_true(m.eval(b, model_completion=True))
 def mint(m, x):
     if isinstance(x, int): return x
